@@ -147,7 +147,15 @@ func Generate(property, tier string, seed uint64) *Trace {
 			case 1:
 				tr.Steps = append(tr.Steps, genQuery(r, tr, nKeys, latest))
 			case 2:
-				tr.Steps = append(tr.Steps, Step{Op: "load", Version: pickVersion(r, latest)})
+				op := "load"
+				if r.Chance(0.4) {
+					op = "loadcopy"
+				}
+				v := pickVersion(r, latest)
+				if op == "loadcopy" && r.Chance(0.15) {
+					v = 0 // what a query without height does before the first commit
+				}
+				tr.Steps = append(tr.Steps, Step{Op: op, Version: v})
 			}
 		}
 		tr.Steps = append(tr.Steps, Step{Op: "commit"})
